@@ -13,4 +13,6 @@ CONSTANTS
   MaxT = 6
 INVARIANT Closure
 INVARIANT Homomorphism
+INVARIANT ZeroRelExact
+INVARIANT InverseGivesId
 CHECK_DEADLOCK FALSE
